@@ -120,3 +120,53 @@ def correspondence(inproc, lean_drive, rng, n, impls):
         else:
             bad.append({"position": pos, "source": src, "model": m, "impl": verdict})
     return cases, bad, dist
+
+
+# ---------------------------------------------------------------- field attributes of Debug
+FIELD_ATTR = {"s": "#[debug(skip)] ", "i": "#[debug(ignore)] ", "f": None, "u": None}
+FIELD_UNREADABLE = ["#[debug(bogus)] ", "#[debug] ", "#[debug()] ", "#[debug(bound(T: Clone))] ", '#[debug(fmt = "{}")] ', "#[debug(skip, ignore)] ",
+                    "#[debug(skip = true)] ", '#[debug(rename_all = "snake_case")] ', "#[debug(1)] ", "#[debug(forward)] "]
+
+
+def gen_debug_fields(rng):
+    """A struct or a variant deriving Debug with field attributes; (source, `fd` request)."""
+    named = rng.chance(1, 2)
+    k = 1 + rng.below(3)
+    names = ["a", "b", "c"][:k]
+    cf = rng.chance(1, 2)
+    codes, decls = [], []
+    for i in range(k):
+        n = rng.choice([0, 0, 1, 1, 1, 2])
+        cs, src = [], ""
+        for _ in range(n):
+            c = rng.choice(["s", "i", "f", "f", "u"])
+            cs.append(c)
+            if c == "f":
+                ref = names[i] if named else f"_{i}"
+                src += rng.choice([f'#[debug("{{{ref}}}")] ', '#[debug("x")] ', f'#[debug("{{}}", {ref})] ', f'#[debug("{{{ref}:?}}",)] '])
+            elif c == "u":
+                src += rng.choice(FIELD_UNREADABLE)
+            else:
+                src += FIELD_ATTR[c]
+        codes.append(",".join(cs) if cs else "-")
+        decls.append(src + (f"{names[i]}: u8" if named else "u8"))
+    body = (" { " + ", ".join(decls) + " }") if named else ("(" + ", ".join(decls) + ")")
+    cattr = '#[debug("lit")] ' if cf else ""
+    if rng.chance(1, 2):
+        src = f"{cattr}struct S{body}" + ("" if named else ";")
+    else:
+        src = f"enum E {{ First, {cattr}V{body}, #[debug(\"l\")] Last(u8) }}"
+    return src, f"fd {1 if cf else 0} " + " ".join(codes)
+
+
+def debug_fields_correspondence(inproc, lean_drive, rng, n):
+    cases = [gen_debug_fields(rng) for _ in range(n)]
+    model = lean_drive([c[1] for c in cases])
+    impl = C.drive(inproc, [f"expand Debug {C.hexs(c[0])}" for c in cases])
+    bad, dist = [], {}
+    for (src, req), m, ia in zip(cases, model, impl):
+        got = "ok" if ia.startswith("ok") else ("panic" if ia.startswith("panic") else "err")
+        dist[m] = dist.get(m, 0) + 1
+        if got != m:
+            bad.append({"source": src, "model": m, "impl": got, "raw": ia[:300]})
+    return cases, bad, dist
